@@ -155,3 +155,14 @@ Example C09_wavelet_haar_2d_3d :
   (let A := wavedec3_Z 1 2 2 3 3 [1;1] [-1;1] [1;1] [1;-1] in
    map (fun t => adj A (fwd A (fun i => Z.of_nat i * Z.of_nat i - 7)%Z) t) (seq 0 18) = map (fun t => (8 * (Z.of_nat t * Z.of_nat t - 7))%Z) (seq 0 18)).
 Proof. vm_compute. split; reflexivity. Qed.
+(* non-vacuity beyond orthogonal banks: the biorthogonal bior2.2 filters scaled to integers (dec_lo * 8/sqrt2, dec_hi * 4/sqrt2, rec_lo * 4/sqrt2,
+   rec_hi * 8/sqrt2) satisfy pr_cond with c = 16 although rec is not the reversed dec (so waverec is a left inverse of wavedec but not its
+   adjoint: finding KF-01 of C01); the executed model gives 16 x in 1-D and 256 x in 2-D, as the _gram theorems state *)
+Example C09_wavelet_bior22 :
+  pr_cond_b 6 (zvec (rev [0;-1;2;6;2;-1])) (zvec (rev [0;1;-2;1;0;0])) (zvec [0;1;2;1;0;0]) (zvec [0;1;2;-6;2;1]) 16 = true /\
+  filters_match_b [0;-1;2;6;2;-1] [0;1;2;1;0;0] = false /\
+  (let A := wavedec_Z 1 6 7 [0;-1;2;6;2;-1] [0;1;-2;1;0;0] [0;1;2;1;0;0] [0;1;2;-6;2;1] in
+   map (fun t => adj A (fwd A (fun i => Z.of_nat i * Z.of_nat i - 5)%Z) t) (seq 0 7) = map (fun t => (16 * (Z.of_nat t * Z.of_nat t - 5))%Z) (seq 0 7)) /\
+  (let A := wavedec2_Z 1 6 3 4 [0;-1;2;6;2;-1] [0;1;-2;1;0;0] [0;1;2;1;0;0] [0;1;2;-6;2;1] in
+   map (fun t => adj A (fwd A (fun i => Z.of_nat i * Z.of_nat i - 5)%Z) t) (seq 0 12) = map (fun t => (256 * (Z.of_nat t * Z.of_nat t - 5))%Z) (seq 0 12)).
+Proof. vm_compute. repeat split; reflexivity. Qed.
